@@ -249,7 +249,7 @@ type c20Req struct {
 func genC20Req(t *rapid.T) c20Req {
 	r := c20Req{Target: "/"}
 	r.Method = rapid.SampledFrom([]string{"GET", "PUT", "PUT", "PUT", "PUT", "POST", "DELETE", "HEAD", "PATCH", "put", "OPTIONS", "FOO"}).Draw(t, "method")
-	r.Kind = rapid.SampledFrom([]string{"json", "json", "form", "form", "query", "both", "garbage", "jsonOdd", "empty"}).Draw(t, "bodyKind")
+	r.Kind = rapid.SampledFrom([]string{"json", "json", "form", "form", "query", "both", "garbage", "jsonOdd", "jsonTwice", "empty"}).Draw(t, "bodyKind")
 	txt := genLevelText(t)
 	form := "application/x-www-form-urlencoded"
 	switch r.Kind {
@@ -307,6 +307,31 @@ func genC20Req(t *rapid.T) c20Req {
 		}
 		o := odd[rapid.IntRange(0, len(odd)-1).Draw(t, "oddJSON")]
 		r.Body, r.known, r.accept, r.lvl = o.body, o.known, o.accept, o.lvl
+		r.CType = rapid.SampledFrom([]string{"application/json", "", "text/json"}).Draw(t, "ctype")
+	case "jsonTwice":
+		// a syntactically valid object that names the level more than once (in any spelling of the key encoding/json
+		// accepts), valid and invalid occurrences in either order: which occurrence counts is encoding/json's
+		// business, so invariants only - above all, a request that is answered 4xx has changed nothing
+		key := func(l string) string { return rapid.SampledFrom([]string{"level", "level", "LEVEL", "Level", "leveL"}).Draw(t, l) }
+		valid := func(l string) string {
+			b, _ := json.Marshal(rapid.SampledFrom([]string{"debug", "info", "warn", "error", "dpanic", "panic", "fatal", "ERROR", "Warn", ""}).Draw(t, l))
+			return string(b)
+		}
+		invalid := func(l string) string {
+			return rapid.SampledFrom([]string{`"bogus"`, `null`, `["x"]`, `1`, `true`, `{"level":"error"}`, `"Level(3)"`, `"inf"`, `-1`}).Draw(t, l)
+		}
+		var members []string
+		for j, n := 0, rapid.IntRange(2, 4).Draw(t, "members"); j < n; j++ {
+			switch rapid.IntRange(0, 3).Draw(t, "memberKind") {
+			case 0, 1:
+				members = append(members, fmt.Sprintf("%q:%s", key("key"), valid("valid")))
+			case 2:
+				members = append(members, fmt.Sprintf("%q:%s", key("key"), invalid("invalid")))
+			default:
+				members = append(members, `"other":`+invalid("otherValue"))
+			}
+		}
+		r.Body = "{" + strings.Join(members, ",") + "}"
 		r.CType = rapid.SampledFrom([]string{"application/json", "", "text/json"}).Draw(t, "ctype")
 	case "empty":
 		r.CType = rapid.SampledFrom([]string{"application/json", form}).Draw(t, "ctype")
